@@ -38,6 +38,10 @@ type SchedTarget struct {
 	Provides map[string]string `json:"provides,omitempty"`
 	Binary   bool              `json:"binary,omitempty"`
 	SrcFile  string            `json:"src_file,omitempty"` // a source file in the package (content "v1"; "v2" after the edit of an "edittool" case)
+	// FailOnV2: the command succeeds while SrcFile holds "v1" and fails once it holds "v2"; BigOut > 0: the (successful)
+	// command leaves an output DIRECTORY of that many files, which RemoveOutputs has to delete when the rebuild fails
+	FailOnV2 bool `json:"fail_on_v2,omitempty"`
+	BigOut   int  `json:"big_out,omitempty"`
 }
 
 func (t *SchedTarget) Label() string { return "//" + t.Pkg + ":" + t.Name }
@@ -46,12 +50,14 @@ type SchedCase struct {
 	Kind      string            `json:"kind"`              // what was injected
 	Shape     string            `json:"shape"`             // graph shape
 	Targets   []*SchedTarget    `json:"targets"`           // in BUILD-file order within each package
-	Broken    map[string]string `json:"broken,omitempty"`  // package -> "syntax" | "runtime" (error after the last target)
+	Broken    map[string]string `json:"broken,omitempty"`  // package -> "syntax" | "runtime" (error after the last target) | "subrepo-order" (after the last target: subinclude of a target of a local subrepo BEFORE the subrepo() call of the same file that defines it) ; SubrepoOK: package -> "same" (subrepo() then subinclude(), same file) | "other" (subrepo() in another package's file)
+	SubrepoOK map[string]string `json:"subrepo_ok,omitempty"`
 	Requested []string          `json:"requested"`         // labels on the command line
 	KeepGoing bool              `json:"keep_going"`
 	Threads   int               `json:"threads"`
 	Second    string            `json:"second,omitempty"`  // "" | "rebuild": observe a second invocation on the built tree | "edittool": build First, edit the source files, observe the build of Requested
 	First     []string          `json:"first,omitempty"`   // labels requested by the first invocation of an "edittool" case
+	SlowSecs  int               `json:"slow_secs,omitempty"` // a command of this case sleeps that long: added to the wall-clock bound
 }
 
 type SchedEvent struct {
@@ -71,6 +77,7 @@ type SchedObs struct {
 	Stderr    string       `json:"stderr,omitempty"`
 	LateLines []string     `json:"late_lines,omitempty"` // action-log lines that appeared after plz had exited
 	BoundMs   int64        `json:"bound_ms"`             // the wall-clock bound that applied to this invocation
+	SubrepoMsg int         `json:"subrepo_msg,omitempty"` // 1: "... is not defined in this package yet", 2: "Subrepo ... is not defined (referenced by ...)", 3: some other failure
 }
 
 // SchedBound is the wall-clock bound of the oracle for one invocation on an idle machine (cycles cost the 5 s timer).
@@ -135,6 +142,11 @@ func schedCmd(t *SchedTarget, logPath string) string {
 	if t.Fail {
 		return fmt.Sprintf("echo S %s >> %s%s && echo F %s >> %s && exit 1", l, logPath, sl, l, logPath)
 	}
+	if t.FailOnV2 {
+		// v1: fill the output directory and succeed; v2: fail (the stale directory of the first build is still there)
+		return fmt.Sprintf("echo S %s >> %s%s && if grep -q v2 $SRCS; then echo F %s >> %s; exit 1; fi; mkdir $OUTS && for i in $(seq 1 %d); do echo x > $OUTS/f$i; done && echo E %s >> %s",
+			l, logPath, sl, l, logPath, t.BigOut, l, logPath)
+	}
 	return fmt.Sprintf("echo S %s >> %s%s && cat $SRCS /dev/null > $OUTS && echo E %s >> %s", l, logPath, sl, l, logPath)
 }
 
@@ -188,6 +200,29 @@ func (c *SchedCase) WriteSched(r *Repo) {
 		if c.Broken[p] == "runtime" {
 			b.WriteString("fail(\"injected evaluation error\")\n")
 		}
+		// a local subrepo <p>/sr rooted at third_party/sr_<p>, and a subinclude of its //:defs
+		if c.Broken[p] == "subrepo-order" { // used before it is defined: "subrepo ... is not defined in this package yet"
+			fmt.Fprintf(&b, "subinclude(\"///%s/sr//:defs\")\nsubrepo(name = \"sr\", path = \"third_party/sr_%s\")\n", p, p)
+			c.writeSubrepoTree(r, p)
+		}
+		if c.Broken[p] == "subrepo-elsewhere-undefined" { // package srdef_<p> exists but does not define the subrepo
+			fmt.Fprintf(&b, "subinclude(\"///srdef_%s/nosr//:defs\")\n", p)
+			must(os.MkdirAll(filepath.Join(r.Dir, "srdef_"+p), 0o755))
+			must(os.WriteFile(filepath.Join(r.Dir, "srdef_"+p, "BUILD"), []byte("# defines nothing\n"), 0o644))
+		}
+		if c.Broken[p] == "subrepo-undefined" { // never defined: the package is parsed again for it -> must fail, not wait for itself
+			fmt.Fprintf(&b, "subinclude(\"///%s/nosr//:defs\")\n", p)
+		}
+		if c.SubrepoOK[p] == "same" {
+			fmt.Fprintf(&b, "subrepo(name = \"sr\", path = \"third_party/sr_%s\")\nsubinclude(\"///%s/sr//:defs\")\n", p, p)
+			c.writeSubrepoTree(r, p)
+		}
+		if c.SubrepoOK[p] == "other" { // defined by package srdef_<p> (which holds nothing else)
+			fmt.Fprintf(&b, "subinclude(\"///srdef_%s/sr//:defs\")\n", p)
+			must(os.MkdirAll(filepath.Join(r.Dir, "srdef_"+p), 0o755))
+			must(os.WriteFile(filepath.Join(r.Dir, "srdef_"+p, "BUILD"), []byte(fmt.Sprintf("subrepo(name = \"sr\", path = \"third_party/sr_%s\")\n", p)), 0o644))
+			c.writeSubrepoTree(r, p)
+		}
 		must(os.MkdirAll(filepath.Join(r.Dir, p), 0o755))
 		must(os.WriteFile(filepath.Join(r.Dir, p, "BUILD"), []byte(b.String()), 0o644))
 		for _, t := range c.Targets {
@@ -196,6 +231,15 @@ func (c *SchedCase) WriteSched(r *Repo) {
 			}
 		}
 	}
+}
+
+// writeSubrepoTree: third_party/sr_<p> = a tiny repository with one filegroup //:defs over a .build_defs file
+func (c *SchedCase) writeSubrepoTree(r *Repo, p string) {
+	dir := filepath.Join(r.Dir, "third_party", "sr_"+p)
+	must(os.MkdirAll(dir, 0o755))
+	must(os.WriteFile(filepath.Join(dir, ".plzconfig"), []byte("[build]\npath = /usr/local/bin:/usr/bin:/bin\n"), 0o644))
+	must(os.WriteFile(filepath.Join(dir, "defs.build_defs"), []byte("SR_X = 1\n"), 0o644))
+	must(os.WriteFile(filepath.Join(dir, "BUILD"), []byte("filegroup(name = \"defs\", srcs = [\"defs.build_defs\"], visibility = [\"PUBLIC\"])\n"), 0o644))
 }
 
 func readSchedTrace(path string) ([]SchedEvent, bool) {
@@ -238,6 +282,7 @@ func (c *SchedCase) RunSched(base string, bound time.Duration) SchedObs {
 	r.CacheDir = filepath.Join(base, "cache")
 	r.Threads = c.Threads
 	c.WriteSched(r)
+	bound += time.Duration(c.SlowSecs) * time.Second
 	tracePath := filepath.Join(base, "trace.json")
 	args := []string{"build", "--trace_file", tracePath}
 	if c.KeepGoing {
@@ -269,6 +314,14 @@ func (c *SchedCase) RunSched(base string, bound time.Duration) SchedObs {
 	res := r.Run(kill, args...)
 	obs := SchedObs{Log: res.Executed, Exit: res.Exit, WallMs: res.Wall.Milliseconds(), TimedOut: res.TimedOut, BoundMs: bound.Milliseconds()}
 	obs.Events, obs.TraceOK = readSchedTrace(tracePath)
+	switch {
+	case strings.Contains(res.Stderr, "is not defined in this package yet"):
+		obs.SubrepoMsg = 1
+	case strings.Contains(res.Stderr, "is not defined (referenced by"):
+		obs.SubrepoMsg = 2
+	case res.Exit != 0:
+		obs.SubrepoMsg = 3
+	}
 	if res.Exit != 0 {
 		obs.Stderr = res.Stderr
 		if len(obs.Stderr) > 1500 {
@@ -307,6 +360,12 @@ func GenSched(r *lib.Rng, o SchedOpts) *SchedCase {
 	}
 	if o.Kind == "undefchain" {
 		return genUndefChain(r, o)
+	}
+	if o.Kind == "slowfail" {
+		return genSlowFail(r, o)
+	}
+	if o.Kind == "stalefail" {
+		return genStaleFail(r, o)
 	}
 	c := &SchedCase{Kind: o.Kind, Broken: map[string]string{}, Second: o.Second}
 	c.Threads = []int{1, 2, 16}[r.Intn(3)]
@@ -407,6 +466,10 @@ func GenSched(r *lib.Rng, o SchedOpts) *SchedCase {
 		}
 	case "syntax", "runtime":
 		c.Broken[c.Targets[victim].Pkg] = o.Kind
+	case "subrepoorder": // BUILD-file errors around subrepos: used before defined in the same file / never defined
+		c.Broken[c.Targets[victim].Pkg] = []string{"subrepo-order", "subrepo-order", "subrepo-undefined", "subrepo-elsewhere-undefined"}[r.Intn(4)]
+	case "subrepook": // controls: the same statements in the right order, or the subrepo defined by another package
+		c.SubrepoOK = map[string]string{c.Targets[victim].Pkg: []string{"same", "other"}[r.Intn(2)]}
 	case "undefined":
 		c.Targets[victim].Deps = append(c.Targets[victim].Deps, "//"+c.Targets[r.Intn(n)].Pkg+":nosuch")
 	case "missingpkg":
@@ -472,6 +535,45 @@ func genUndefChain(r *lib.Rng, o SchedOpts) *SchedCase {
 	other := &SchedTarget{Pkg: "p1", Name: "z00", Sleep: sleepOf(r)}
 	c.Targets = append(c.Targets, other)
 	c.Requested = []string{a.Label(), prev, other.Label()} // a00 first: its parse task is the one that parses p0
+	return c
+}
+
+// genSlowFail: a dependency whose command runs for longer than waitOnChan's 10 s "still waiting" timer - twice, since
+// queueTargetAsync waits in both of its passes - and THEN fails. Its dependents (one through srcs, one through a named
+// tool, a chain on top) must still be waiting when it fails, and must never start.
+func genSlowFail(r *lib.Rng, o SchedOpts) *SchedCase {
+	c := &SchedCase{Kind: o.Kind, Shape: "fanin", Broken: map[string]string{}, Threads: []int{2, 16}[r.Intn(2)], KeepGoing: r.Bool(), SlowSecs: 25}
+	slow := &SchedTarget{Pkg: "p0", Name: "a00", Fail: true, Sleep: "25", Binary: true}
+	u0 := &SchedTarget{Pkg: "p0", Name: "u00", Deps: []string{slow.Label()}}
+	u1 := &SchedTarget{Pkg: "p1", Name: "u01", Deps: []string{slow.Label()}, ToolDeps: []string{slow.Label()}}
+	u2 := &SchedTarget{Pkg: "p1", Name: "u02", Deps: []string{u0.Label()}}
+	z := &SchedTarget{Pkg: "p1", Name: "z00", Sleep: sleepOf(r)}
+	c.Targets = []*SchedTarget{slow, u0, u1, u2, z}
+	c.Requested = []string{u2.Label(), u1.Label(), z.Label()}
+	lib.Shuffle(r, c.Requested)
+	return c
+}
+
+// genStaleFail: a (a tool of b) is built once, leaving a large output directory; then its source changes so that the
+// rebuild fails and Build() has to remove the stale outputs before it marks the target Failed. b (and a chain on top of it)
+// waits for a and must not be started, with --keep_going.
+func genStaleFail(r *lib.Rng, o SchedOpts) *SchedCase {
+	c := &SchedCase{Kind: o.Kind, Shape: "tool", Broken: map[string]string{}, Threads: []int{2, 4, 16}[r.Intn(3)], KeepGoing: true, Second: "edittool"}
+	a := &SchedTarget{Pkg: "p0", Name: "a00", SrcFile: "flag.txt", FailOnV2: true, BigOut: []int{3000, 5000}[r.Intn(2)], Binary: true}
+	b := &SchedTarget{Pkg: "p0", Name: "b00", Deps: []string{a.Label()}, ToolDeps: []string{a.Label()}}
+	c.Targets = []*SchedTarget{a, b}
+	top := b
+	for i := 0; i < r.Intn(3); i++ {
+		u := &SchedTarget{Pkg: "p0", Name: fmt.Sprintf("u%02d", i), Deps: []string{top.Label()}}
+		c.Targets = append(c.Targets, u)
+		top = u
+	}
+	if r.Bool() { // a second waiter, through srcs
+		c.Targets = append(c.Targets, &SchedTarget{Pkg: "p0", Name: "w00", Deps: []string{a.Label()}})
+		c.Requested = append(c.Requested, "//p0:w00")
+	}
+	c.First = []string{a.Label()}
+	c.Requested = append(c.Requested, top.Label())
 	return c
 }
 
@@ -594,6 +696,9 @@ func (c *SchedCase) EventTerms(ix *SchedIndex, obs *SchedObs) (string, bool) {
 	ok := true
 	for _, e := range obs.Events {
 		n, known := ix.Num[e.Label]
+		if !known && strings.HasPrefix(e.Label, "///") {
+			continue // the subincluded filegroup of a subrepo: outside the modelled graph
+		}
 		if !known {
 			ok = false
 			continue
@@ -681,6 +786,36 @@ func (c *SchedCase) CoqCase(obs *SchedObs) (string, bool) {
 	return fmt.Sprintf("CRun %s %s %s [%s] %s", c.GraphTerm(ix), natList(hints), evs, strings.Join(tail, "; "), lib.Bool(obs.Exit != 0)), ok
 }
 
+// SubrepoCase is the Model/Sched.v case for checkSubrepo's decision in a case with subrepo statements ("" if there are
+// none): CSub registered definer_defines label definer dependent observed. A package label is (subrepo, package): subrepo 0 =
+// the host repository, 1 = the subrepo; package 0 = a root package, 1 = the package with the statements, 2 = srdef_<p>.
+func (c *SchedCase) SubrepoCase(obs *SchedObs) string {
+	kind := ""
+	for _, k := range c.Broken {
+		if strings.HasPrefix(k, "subrepo-") {
+			kind = k
+		}
+	}
+	for _, k := range c.SubrepoOK {
+		kind = "ok-" + k
+	}
+	reg, defines, definer := false, true, "(0, 1)"
+	switch kind {
+	case "":
+		return ""
+	case "subrepo-order":
+	case "subrepo-undefined":
+		defines = false
+	case "subrepo-elsewhere-undefined":
+		defines, definer = false, "(0, 2)"
+	case "ok-same":
+		reg = true
+	case "ok-other":
+		definer = "(0, 2)"
+	}
+	return fmt.Sprintf("CSub %s %s (1, 0) %s (0, 1) %d", lib.Bool(reg), lib.Bool(defines), definer, obs.SubrepoMsg)
+}
+
 // ---------------------------------------------------------------------------------------------
 // the oracle (independent of the model)
 
@@ -729,7 +864,7 @@ func (c *SchedCase) cannotBuild() map[string]string {
 			bad[l] = "BUILD file error"
 		case t == nil:
 			bad[l] = "undeclared target"
-		case t.Fail:
+		case t.Fail, t.FailOnV2 && c.Second == "edittool":
 			bad[l] = "failing command"
 		}
 	}
@@ -802,6 +937,7 @@ func SchedOracle(c *SchedCase, obs *SchedObs) []SchedFinding {
 				if _, done := pos[d]; !done {
 					if failedCmd[d] > 0 || bad[d] != "" {
 						add("C05", "ran-after-failed-dependency", "%s started although its dependency %s cannot be built (%s)", f[1], d, bad[d])
+						add("C04", "started-although-dependency-failed", "%s started although its dependency %s did not succeed (%s)", f[1], d, bad[d])
 					} else {
 						add("C04", "started-before-dependency-finished", "%s started before its dependency %s had finished (log line %d)", f[1], d, i)
 					}
@@ -907,6 +1043,7 @@ func SchedOracle(c *SchedCase, obs *SchedObs) []SchedFinding {
 			}
 			if b := visit(l); b != "" && started[l] == 0 {
 				add("C05", "ran-after-failed-dependency", "plz began to build %s although %s, which it depends on, cannot be built (%s)", l, b, bad[b])
+				add("C04", "started-although-dependency-failed", "plz began to build %s although %s, which it depends on, did not succeed (%s)", l, b, bad[b])
 			}
 		}
 		for l, n := range ends {
@@ -1004,6 +1141,7 @@ func RunSchedProperty(c *lib.Ctx, prop string) {
 			{"syntax", 5, 80, ""}, {"runtime", 5, 80, ""}, {"undefined", 6, 80, ""}, {"missingpkg", 5, 80, ""},
 			{"cycle1", 1, 6, ""}, {"cycle2", 1, 6, ""}, {"cycle3", 1, 6, ""}, {"hang", 1, 2, ""},
 			{"undefchain", 6, 60, ""}, {"namedtool", 1, 20, "edittool"},
+			{"subrepoorder", 5, 40, ""}, {"subrepook", 2, 20, ""}, {"slowfail", 1, 3, ""}, {"stalefail", 1, 20, "edittool"},
 		}
 		if prop == "C04" { // C04 concentrates on successful and partially failing builds, C05 on failures
 			plan[0].quick, plan[2].quick, plan[3].quick = 26, 16, 12
@@ -1011,6 +1149,7 @@ func RunSchedProperty(c *lib.Ctx, prop string) {
 			plan[8].quick, plan[9].quick, plan[10].quick, plan[11].quick = 0, 1, 0, 0
 			plan[11].thor = 0
 			plan[12].quick, plan[13].quick = 3, 3
+			plan[14].quick, plan[15].quick, plan[16].quick, plan[17].quick = 1, 1, 0, 4
 		} else {
 			plan[0].quick, plan[3].quick = 6, 16
 		}
@@ -1029,7 +1168,7 @@ func RunSchedProperty(c *lib.Ctx, prop string) {
 	}
 	// the slow cases (timer, hang) first so that they overlap with everything else
 	sort.SliceStable(cases, func(i, j int) bool {
-		slow := func(k string) bool { return strings.HasPrefix(k, "cycle") || k == "hang" }
+		slow := func(k string) bool { return strings.HasPrefix(k, "cycle") || k == "hang" || k == "slowfail" }
 		return slow(cases[i].Kind) && !slow(cases[j].Kind)
 	})
 	ref, bound := Calibrate(base)
@@ -1038,7 +1177,7 @@ func RunSchedProperty(c *lib.Ctx, prop string) {
 	for i, sc := range cases {
 		o := &obs[i]
 		js := map[string]any{"kind": sc.Kind, "shape": sc.Shape, "targets": sc.Targets, "broken": sc.Broken, "requested": sc.Requested,
-			"keep_going": sc.KeepGoing, "threads": sc.Threads, "second": sc.Second, "observed": o}
+			"keep_going": sc.KeepGoing, "threads": sc.Threads, "second": sc.Second, "first": sc.First, "subrepo_ok": sc.SubrepoOK, "slow_secs": sc.SlowSecs, "observed": o}
 		term, understood := sc.CoqCase(o)
 		started := 0
 		for _, l := range o.Log {
@@ -1080,6 +1219,10 @@ func RunSchedProperty(c *lib.Ctx, prop string) {
 			c.Eval(js, key, started >= 2 || sc.Kind != "none")
 		} else {
 			c.Case(term, js, key, started >= 2 || sc.Kind != "none")
+		}
+		// checkSubrepo's decision (defined before use / used before defined / defined elsewhere / nowhere), seen through plz's error message
+		if sub := sc.SubrepoCase(o); sub != "" && !o.TimedOut {
+			c.Case(sub, js, "sub:"+key, true)
 		}
 	}
 }
